@@ -2,12 +2,15 @@
    Statements only; proofs in Proofs/Paging.v, Proofs/Restart.v, Proofs/ChainInv.v, Proofs/ChainRun.v,
    Proofs/ChainExamples.v; the incoming / outgoing histories and the transaction heights in Proofs/History1.v (numbered
    histories; the ledger operations as steps on them), History2.v (ledgers: extension and reorganisation), History3.v
-   (every delivery sequence), History4.v (the event lists = those of Check/C17.v), HistoryExamples.v (concrete histories). *)
-From Virel Require Import Lib.Config Lib.U64 Lib.AMap Model.Emission Model.Ledger Model.Node Model.Paging Spec.Chain
+   (every delivery sequence), History4.v (the event lists = those of Check/C17.v), HistoryExamples.v (concrete histories);
+   the decision logic of the RPC handlers get_block_by_height / get_block_by_hash / get_transaction (Model/Rpc.v) on every
+   reachable node state in Proofs/RpcHandlers.v. *)
+From Virel Require Import Lib.Config Lib.U64 Lib.AMap Model.Emission Model.Ledger Model.Node Model.Rpc Model.Paging Spec.Chain
   Proofs.Emission Proofs.Conservation Proofs.Pointwise Proofs.Refine2
   Proofs.NodeBasics Proofs.ForkChoice Proofs.Paging Proofs.Restart Proofs.ChainInv Proofs.ChainRun Proofs.ChainHeights
   Proofs.ChainExamples Proofs.Undo2 Proofs.Undo4 Proofs.Replay2 Proofs.Replay3 Proofs.Replay4 Proofs.Replay5 Proofs.Replay6
-  Proofs.History1 Proofs.History2 Proofs.History3 Proofs.History4 Proofs.HistoryExamples Check.Hist Check.C01 Check.C17 Gen.Params.
+  Proofs.History1 Proofs.History2 Proofs.History3 Proofs.History4 Proofs.HistoryExamples Proofs.RpcHandlers
+  Check.Hist Check.C01 Check.C17 Gen.Params.
 From Virel Require Model.Des Model.Codec Spec.TxAbs Proofs.CodecBridge Proofs.CodecBridgeNode.
 Open Scope N_scope.
 
@@ -402,6 +405,128 @@ Theorem C17_same_tx_two_branches_example :
 Proof. exact same_tx_two_branches_example. Qed.
 Print Assumptions C17_same_tx_two_branches_example.
 
+(* ================================================================================================================ *)
+(* THE RPC HANDLERS (Model/Rpc.v: the decision logic of get_block_by_height, get_block_by_hash, get_transaction as
+   cmd/virel-node/noderpc.go reads the Block, Topo and Tx indexes) on EVERY reachable node state.
+   Main chain = g :: mchain n (genesis, then the stored blocks filed under the heights 1 .. top_h n, lowest first);
+   on_main g n b = b is one of these blocks; the walk along prev_hash from the tip meets the same blocks.
+
+   get_block_by_height: the block served for a height h is the h-th block of the main chain, exactly for h <= top_h n
+   (it is a stored block of height h, the (top_h - h)-th of the walk from the tip); above the tip: "block not found". *)
+Theorem C17_rpc_block_by_height : forall cfg genesis_addr team_key g n0 ops,
+  node0 cfg genesis_addr g = Ok n0 -> b_height g = 0 -> b_cd g = b_diff g ->
+  N.of_nat (length ops) < two64 - 1 ->
+  let n := run cfg genesis_addr team_key n0 ops in
+  (forall h b, rpc_block_by_height n h = Some b <->
+               h <= top_h n /\ nth_error (g :: mchain n) (N.to_nat h) = Some b) /\
+  (forall h b, rpc_block_by_height n h = Some b ->
+               on_main g n b /\ b_height b = h /\ get_block n (b_hash b) = Some b /\
+               nth_error (walk (blocks n) (N.to_nat (top_h n)) (top n)) (N.to_nat (top_h n - h)) = Some (b_hash b)) /\
+  (forall h, h <= top_h n -> exists b, rpc_block_by_height n h = Some b) /\
+  (forall h, top_h n < h -> rpc_block_by_height n h = None).
+Proof. exact rpc_block_by_height_main. Qed.
+Print Assumptions C17_rpc_block_by_height.
+
+(* get_block_by_hash: a block is served under a hash iff it is stored under it and on the main chain (then the hash is
+   the block's own, and the height handler serves the same block at its height).  A stored block of another branch is
+   never served: "block is orphan" when its height is at most the tip's, "Block not found" when it is ABOVE the tip (no
+   index entry at its height: GetTopo's error is returned). *)
+Theorem C17_rpc_block_by_hash : forall cfg genesis_addr team_key g n0 ops,
+  node0 cfg genesis_addr g = Ok n0 -> b_height g = 0 -> b_cd g = b_diff g ->
+  N.of_nat (length ops) < two64 - 1 ->
+  let n := run cfg genesis_addr team_key n0 ops in
+  (forall x b, rpc_block_by_hash n x = RpcBlockFound b <-> get_block n x = Some b /\ on_main g n b) /\
+  (forall x b, rpc_block_by_hash n x = RpcBlockFound b ->
+               b_hash b = x /\ b_height b <= top_h n /\ rpc_block_by_height n (b_height b) = Some b) /\
+  (forall x b, get_block n x = Some b -> ~ on_main g n b ->
+               rpc_block_by_hash n x = if b_height b <=? top_h n then RpcBlockOrphan else RpcBlockNotFound) /\
+  (forall x, get_block n x = None -> rpc_block_by_hash n x = RpcBlockNotFound).
+Proof. exact rpc_block_by_hash_main. Qed.
+Print Assumptions C17_rpc_block_by_hash.
+
+(* get_transaction, the coinbase fallback (taken when the Tx index has no entry for the id): the answer
+   (height, coinbase) is given for a hash iff a block is stored under it and is on the main chain, with that block's
+   height and coinbase = true.  A stored block that is not on the main chain gets an error: "coinbase transaction is
+   orphan" at a height up to the tip's, "transaction not found" ABOVE the tip (no index entry: the error of GetTopo is
+   returned); a stored block above the tip is never on the main chain. *)
+Theorem C17_rpc_coinbase : forall cfg genesis_addr team_key g n0 ops,
+  node0 cfg genesis_addr g = Ok n0 -> b_height g = 0 -> b_cd g = b_diff g ->
+  N.of_nat (length ops) < two64 - 1 ->
+  let n := run cfg genesis_addr team_key n0 ops in
+  (forall x, nget (txh (ldg n)) x = None -> rpc_get_transaction n x = rpc_coinbase n x) /\
+  (forall x h cb, rpc_coinbase n x = RpcTxFound h cb <->
+                  exists b, get_block n x = Some b /\ on_main g n b /\ h = b_height b /\ cb = true) /\
+  (forall x b, get_block n x = Some b -> ~ on_main g n b ->
+               rpc_coinbase n x = if b_height b <=? top_h n then RpcTxOrphan else RpcTxNotFound) /\
+  (forall x b, get_block n x = Some b -> top_h n < b_height b -> ~ on_main g n b /\ rpc_coinbase n x = RpcTxNotFound) /\
+  (forall x, get_block n x = None -> rpc_coinbase n x = RpcTxNotFound).
+Proof. exact rpc_coinbase_main. Qed.
+Print Assumptions C17_rpc_coinbase.
+
+(* the handler that LOSES the error of GetTopo (rpc_coinbase_lost_error: `if topoHash, err := GetTopo(..); err == nil &&
+   topoHash != txid { orphan }`) does not have this property: on the reorganising history of
+   C17_index_premises_satisfiable (G-A1-A2-A3, then B and D: main chain G-B-D, tip height 2) the old tip A3 (hash 8) is a
+   stored block of height 3 with no index entry at height 3, not on the main chain - that handler answers it as a coinbase
+   at height 3; the handler as it is answers "transaction not found". *)
+Theorem C17_rpc_coinbase_lost_error_refuted :
+  node0 cfg_verifnet 7 w_genesis = Ok ex_n0 /\ b_height w_genesis = 0 /\ b_cd w_genesis = b_diff w_genesis /\
+  N.of_nat (length sr_ops) < two64 - 1 /\
+  let n := run cfg_verifnet 7 0 ex_n0 sr_ops in
+  exists b, get_block n 8 = Some b /\ b_height b = 3 /\ top_h n = 2 /\ get_topo n 3 = None /\
+            ~ on_main w_genesis n b /\
+            nget (txh (ldg n)) 8 = None /\
+            rpc_coinbase_lost_error n 8 = RpcTxFound 3 true /\
+            rpc_coinbase n 8 = RpcTxNotFound /\ rpc_get_transaction n 8 = RpcTxNotFound.
+Proof. exact rpc_coinbase_lost_error_refuted. Qed.
+Print Assumptions C17_rpc_coinbase_lost_error_refuted.
+
+(* get_transaction for an id of the Tx index (premises of C17_tx_heights): a transaction of a main-chain block is
+   answered with that block's height, not as a coinbase; an id with an entry that belongs to no main-chain block is
+   answered with height 0; in general the answer carries the height kept in the table. *)
+Theorem C17_rpc_get_transaction_height : forall cfg genesis_addr team_key,
+  cfg_ok_emission cfg = true -> cfg_ok_feepos cfg = true ->
+  forall g n0 ops,
+  node0 cfg genesis_addr g = Ok n0 -> b_height g = 0 -> b_cd g = b_diff g ->
+  N.of_nat (length ops) < two64 - 1 ->
+  let n := run cfg genesis_addr team_key n0 ops in
+  Forall (tx_c cfg) (b_txs g) ->
+  (forall h b, get_block n h = Some b -> Forall (fun t => wf_tx cfg t /\ ver_ok t = true) (b_txs b)) ->
+  (forall bs, up (b_hash g) (blocks n) (b_hash g) bs ->
+     NoDup (bkeys g ++ flat_map bkeys bs) /\ c0 g + bnouts bs < two64 /\ c0 g + bntx bs < two64) ->
+  (forall B t, on_main g n B -> In t (b_txs B) -> rpc_get_transaction n (tx_id t) = RpcTxFound (b_height B) false) /\
+  (forall id, nget (txh (ldg n)) id <> None ->
+     (forall B t, on_main g n B -> In t (b_txs B) -> tx_id t <> id) ->
+     rpc_get_transaction n id = RpcTxFound 0 false) /\
+  (forall id h, nget (txh (ldg n)) id = Some h -> rpc_get_transaction n id = RpcTxFound h false).
+Proof. exact rpc_get_transaction_height. Qed.
+Print Assumptions C17_rpc_get_transaction_height.
+
+(* non-vacuity: the three handlers on the reorganising history (main chain G-B-D = hashes 1, 4, 6; A1 = 2 and A2 = 3
+   stored at heights up to the tip's, A3 = 8 stored ABOVE the tip, 77 never stored) *)
+Theorem C17_rpc_handlers_reorg_example :
+  let n := run cfg_verifnet 7 0 ex_n0 sr_ops in
+  map b_hash (w_genesis :: mchain n) = [1; 4; 6] /\ top_h n = 2 /\
+  map (fun h => option_map b_hash (rpc_block_by_height n h)) [0; 1; 2; 3; 4] = [Some 1; Some 4; Some 6; None; None] /\
+  (exists b4 b6, rpc_block_by_hash n 4 = RpcBlockFound b4 /\ b_hash b4 = 4 /\ b_height b4 = 1 /\
+                 rpc_block_by_hash n 6 = RpcBlockFound b6 /\ b_hash b6 = 6 /\ b_height b6 = 2) /\
+  rpc_block_by_hash n 2 = RpcBlockOrphan /\ rpc_block_by_hash n 3 = RpcBlockOrphan /\
+  rpc_block_by_hash n 8 = RpcBlockNotFound /\ rpc_block_by_hash n 77 = RpcBlockNotFound /\
+  map (rpc_get_transaction n) [1; 4; 6; 2; 3; 8; 77] =
+    [RpcTxFound 0 true; RpcTxFound 1 true; RpcTxFound 2 true; RpcTxOrphan; RpcTxOrphan; RpcTxNotFound; RpcTxNotFound].
+Proof. exact rpc_handlers_reorg_example. Qed.
+Print Assumptions C17_rpc_handlers_reorg_example.
+
+(* and on the history with transactions of C17_same_tx_two_branches_example (which satisfies every premise:
+   C17_index_premises_with_transactions): T1 = 100 (in A1 and in D) is answered with the height of D, T2 = 101 (in A1
+   only) with 0, D's hash 6 as a coinbase at height 2, A1's hash 2 "orphan", 55 "not found" *)
+Theorem C17_rpc_handlers_tx_example :
+  let n := run cfg_verifnet 7 0 ex_n0 tx_ops in
+  map b_hash (w_genesis :: mchain n) = [1; 4; 6] /\
+  map (rpc_get_transaction n) [100; 101; 6; 2; 55] =
+    [RpcTxFound 2 false; RpcTxFound 0 false; RpcTxFound 2 true; RpcTxOrphan; RpcTxNotFound].
+Proof. exact rpc_handlers_tx_example. Qed.
+Print Assumptions C17_rpc_handlers_tx_example.
+
 (* REMAINING GAPS:
    - the premise [paths] is stated on the store, not derived, exactly as for C03_ledger_is_replay (transaction ids and
      block hashes are symbolic numbers in the model); the premise [typed] is derived from the byte-level decoder model in
@@ -410,5 +535,10 @@ Print Assumptions C17_same_tx_two_branches_example.
    - the theorems speak about the model's ledger record; that the implementation's RPC handlers read these tables
      (GetIncomingTx / GetOutgoingTx / GetTxHeight) and page them as C17_pages_partition says is checked on the
      implementation's dumps (Check/C17.v, Check/C17p.v), not proved;
+   - Model/Rpc.v transcribes the decision logic of three handlers by hand; that the server's answers follow it is checked
+     on the real RPC server (family c17rpc, Check/C17r.v), not proved.  The model's transaction-height table has entries
+     for the transactions some main chain applied; the implementation's Tx index also holds mempool transactions and
+     the transactions of never-connected stored blocks with the height 0 (the model has no entry for them: the
+     model's get_transaction then takes the coinbase fallback where the implementation answers "height 0");
    - entries above the counters are unconstrained on purpose: they exist (C17_index_reorg_example) and are never
      served; a database dump that lists ALL entries of the index would show them. *)
